@@ -9,7 +9,7 @@ CASE_TYPE = "case19"
 CHECK_FN = "check_cases"
 MISMATCH_IS_VIOLATION = False
 HARNESS_TIMEOUT = 3000
-RULE = ("five kinds of case. wvpipe / cepipe: the same kinds of content delivered through a named pipe (no size to check the header against): no crash, same memory budget. wv / ce: word-vector and command-embedding files (valid with 0-3 entries, truncated at any byte, header-only files of 0-11 bytes, counts of "
+RULE = ("six kinds of case. dbload: Database.LoadEmbeddings in a child whose working directory holds valid asset files with fewer, as many or more command embeddings than the database has commands, then a search: no crash. wvpipe / cepipe: the same kinds of content delivered through a named pipe (no size to check the header against): no crash, same memory budget. wv / ce: word-vector and command-embedding files (valid with 0-3 entries, truncated at any byte, header-only files of 0-11 bytes, counts of "
         "2^32-1 / 2^28 / one too many, wrong dimension, 65535-byte word length, trailing garbage) loaded in a CHILD process under RLIMIT_AS: exit status, error flag, number "
         "of vectors, first vector bytes and peak resident memory (against 64 bytes per file byte + 48 MiB over the idle child) are observed and the parse result is compared "
         "with Model/Embedding.v; cos: pairs of float32 vectors of dimension 0-8 (identical, opposite, zero, mismatched, NaN, Inf, huge, tiny) - both orders, range, zero "
@@ -29,6 +29,8 @@ def coq_case(c):
     if k == "ce":
         return "KCe %s %s %s %s %s %s %s" % (f, core.cbool(c["crashed"]), core.cbool(c["err"]), core.cz(c["n_vec"]), core.cbytes(bytes(c.get("vec0") or [])),
                                             core.cz(c["max_rss_kb"]), core.cz(c["base_rss_kb"]))
+    if k == "dbload":
+        return 'KPipe "dbload" [] %s %s %s' % (core.cbool(c["crashed"]), core.cz(c["max_rss_kb"]), core.cz(c["base_rss_kb"]))
     if k in ("wvpipe", "cepipe"):
         return 'KPipe "%s" %s %s %s %s' % (k[:2], f, core.cbool(c["crashed"]), core.cz(c["max_rss_kb"]), core.cz(c["base_rss_kb"]))
     if k == "cos":
@@ -48,6 +50,8 @@ def identity(c):
 
 def sample(c):
     k = c["kind"]
+    if k == "dbload":
+        return {"kind": k, "setting": bytes(c.get("file") or []).decode(), "crashed": c["crashed"]}
     if k in ("wv", "ce", "wvpipe", "cepipe"):
         return {"kind": k, "file_hex": bytes(c.get("file") or [])[:24].hex(), "file_len": len(c.get("file") or []), "crashed": c["crashed"], "error": c["err"],
                 "vectors": c["n_vec"], "peak_rss_kb": c["max_rss_kb"], "idle_rss_kb": c["base_rss_kb"]}
